@@ -408,10 +408,9 @@ def encodeData (o : Oracle) (s : St) (site : Nat) (isLast forceFlush : Bool) : O
   else
     if !isLast ∧ !forceFlush ∧ !ans.emit then
       -- keep accumulating this meta-block
-      .ok ({ headerOnly with lastProcessedPos := s.inputPos,
-             oracleBad := s.oracleBad || !good || decide (ans.bits.length ≠ predicted.length) }, true, req)
+      .ok ({ headerOnly with lastProcessedPos := s.inputPos, oracleBad := s.oracleBad || !good || decide (ans.bits.length ≠ predicted.length) }, true, req)
     else if !isLast ∧ s.inputPos = s.lastFlushPos then
-      .ok ({ headerOnly with oracleBad := s.oracleBad || !good || ans.emit || decide (ans.bits.length ≠ predicted.length) }, true, req)
+      .ok ({ headerOnly with oracleBad := s.oracleBad || !good || !ans.emit || decide (ans.bits.length ≠ predicted.length) }, true, req)
     else
       if wFull.length / 8 + 2 > s.storageSize then .panic else
       let (lb, lbb) := carryOf wFull
@@ -420,13 +419,13 @@ def encodeData (o : Oracle) (s : St) (site : Nat) (isLast forceFlush : Bool) : O
 
 /-! ### output side -/
 
-/-- bytes `seal as u8`, `(seal >> 8) as u8`, `(seal >> 16) as u8` -/
-def sealBytes (seal nbytes : Nat) : Bytes :=
-  (List.range nbytes).map (fun i => (seal / 256 ^ i) % 256)
+/-- bytes `sealV as u8`, `(sealV >> 8) as u8`, `(sealV >> 16) as u8` -/
+def sealBytes (sealV nbytes : Nat) : Bytes :=
+  (List.range nbytes).map (fun i => (sealV / 256 ^ i) % 256)
 
 /-- `inject_byte_padding_block` -/
 def injectBytePaddingBlock (s : St) : Out St :=
-  let seal := s.lastBytes ||| (6 * 2 ^ s.lastBytesBits)
+  let sealV := s.lastBytes ||| (6 * 2 ^ s.lastBytesBits)
   let sealBits := s.lastBytesBits + 6
   let nbytes := (sealBits + 7) / 8
   let s := { s with lastBytes := 0, lastBytesBits := 0 }
@@ -434,12 +433,12 @@ def injectBytePaddingBlock (s : St) : Out St :=
   if append then
     match s.nextOut with
     | .dyn off => if off + s.pending.length + nbytes > s.storageSize then .panic
-                  else .ok { s with pending := s.pending ++ sealBytes seal nbytes }
+                  else .ok { s with pending := s.pending ++ sealBytes sealV nbytes }
     | .tiny off => if off + s.pending.length + nbytes > 16 then .panic
-                   else .ok { s with pending := s.pending ++ sealBytes seal nbytes }
+                   else .ok { s with pending := s.pending ++ sealBytes sealV nbytes }
     | .none => .panic
   else
-    .ok { s with nextOut := .tiny 0, pending := s.pending ++ sealBytes seal nbytes }
+    .ok { s with nextOut := .tiny 0, pending := s.pending ++ sealBytes sealV nbytes }
 
 def nextOutIncrement (n : NextOut) (inc : Nat) : NextOut :=
   match n with
@@ -499,45 +498,51 @@ def takeOutput (s : St) (size : Nat) : Out (St × Bytes) :=
 def isFinished (s : St) : Bool := s.streamState = .finished ∧ s.pending.length = 0
 def hasMoreOutput (s : St) : Bool := s.pending.length ≠ 0
 
+/-- how a loop iteration ends: `continue`, `break`, or `return false` -/
+inductive Ctl where
+  | cont | brk | fail
+deriving Repr, DecidableEq, Inhabited
+
 /-! ### metadata -/
 
-/-- one iteration of the `process_metadata` loop: `some (…, true)` = `continue`,
-`some (…, false)` = `break`, `none` = `return false` -/
-def processMetadataStep (o : Oracle) (s : St) (io : Io) : Out (Option (St × Io × Bool)) :=
+/-- one iteration of the `process_metadata` loop -/
+def processMetadataStep (o : Oracle) (s : St) (io : Io) : Out (St × Io × Ctl) :=
   match injectFlushOrPushOutput s io with
   | .panic => .panic
   | .fuel => .fuel
-  | .ok (s, io, true) => .ok (some (s, io, true))
+  | .ok (s, io, true) => .ok (s, io, .cont)
   | .ok (s, io, false) =>
-    if s.pending.length ≠ 0 then .ok (some (s, io, false))
+    if s.pending.length ≠ 0 then .ok (s, io, .brk)
     else if s.inputPos ≠ s.lastFlushPos then
       match encodeData o s 1 false true with
       | .panic => .panic
       | .fuel => .fuel
       | .ok (s, res, req) =>
         let io := { io with reqs := io.reqs ++ [req] }
-        if !res then .ok none else .ok (some (s, io, true))
+        if !res then .ok (s, io, .fail) else .ok (s, io, .cont)
     else if s.streamState = .metadataHead then
-      let hdr := metadataHeaderBits s.remainingMetadata (bitsOf s.lastBytesBits s.lastBytes)
-      -- BrotliWriteBits stores 8 bytes at `pos >> 3` of the 16-byte tiny_buf_
-      if (hdr.length / 8) + 8 > 16 + 7 then .panic else
-      .ok (some ({ s with nextOut := .tiny 0, pending := toBytes hdr, lastBytes := 0, lastBytesBits := 0,
-                          streamState := .metadataBody }, io, true))
+      let carry := bitsOf s.lastBytesBits s.lastBytes
+      let hdr := metadataHeaderBits s.remainingMetadata carry
+      -- BrotliWriteBits stores 8 bytes at `pos >> 3` of the 16-byte tiny_buf_; the last write
+      -- (MSKIPLEN, or MSKIPBYTES for an empty block) starts at bit `carry + 6` / `carry + 4`
+      if (carry.length + 6) / 8 + 8 > 16 then .panic else
+      .ok ({ s with nextOut := .tiny 0, pending := toBytes hdr, lastBytes := 0, lastBytesBits := 0,
+                    streamState := .metadataBody }, io, .cont)
     else
       if s.remainingMetadata = 0 then
-        .ok (some ({ s with remainingMetadata := u32Max, streamState := .processing }, io, false))
+        .ok ({ s with remainingMetadata := u32Max, streamState := .processing }, io, .brk)
       else if io.availOut ≠ 0 then
         let copy := (min s.remainingMetadata io.availOut) % two32
         if copy > io.input.length then .panic else
-        .ok (some ({ s with remainingMetadata := (s.remainingMetadata + two32 - copy) % two32, totalOut := (s.totalOut + copy) % two64 },
-                   { io with input := io.input.drop copy, availIn := (io.availIn + two64 - copy) % two64,
-                             availOut := io.availOut - copy, out := io.out ++ io.input.take copy }, true))
+        .ok ({ s with remainingMetadata := (s.remainingMetadata + two32 - copy) % two32, totalOut := (s.totalOut + copy) % two64 },
+             { io with input := io.input.drop copy, availIn := (io.availIn + two64 - copy) % two64,
+                       availOut := io.availOut - copy, out := io.out ++ io.input.take copy }, .cont)
       else
         let copy := min s.remainingMetadata 16
         if copy > io.input.length then .panic else
-        .ok (some ({ s with nextOut := .tiny 0, pending := io.input.take copy,
-                            remainingMetadata := (s.remainingMetadata + two32 - copy) % two32 },
-                   { io with input := io.input.drop copy, availIn := (io.availIn + two64 - copy) % two64 }, true))
+        .ok ({ s with nextOut := .tiny 0, pending := io.input.take copy,
+                      remainingMetadata := (s.remainingMetadata + two32 - copy) % two32 },
+             { io with input := io.input.drop copy, availIn := (io.availIn + two64 - copy) % two64 }, .cont)
 
 def processMetadataLoop (o : Oracle) : Nat → St → Io → Out (St × Io × Bool)
   | 0, _, _ => .fuel
@@ -545,9 +550,9 @@ def processMetadataLoop (o : Oracle) : Nat → St → Io → Out (St × Io × Bo
     match processMetadataStep o s io with
     | .panic => .panic
     | .fuel => .fuel
-    | .ok none => .ok (s, io, false)
-    | .ok (some (s', io', true)) => processMetadataLoop o fuel s' io'
-    | .ok (some (s', io', false)) => .ok (s', io', true)
+    | .ok (s', io', .fail) => .ok (s', io', false)
+    | .ok (s', io', .cont) => processMetadataLoop o fuel s' io'
+    | .ok (s', io', .brk) => .ok (s', io', true)
 
 /-- `process_metadata` -/
 def processMetadata (o : Oracle) (fuel : Nat) (s : St) (io : Io) : Out (St × Io × Bool) :=
@@ -617,22 +622,21 @@ def compressStreamFast (o : Oracle) (fuel op : Nat) (s : St) (io : Io) : Out (St
 
 /-! ### the main loop -/
 
-/-- one iteration of the `compress_stream` loop: `some (…, true)` continue, `some (…, false)`
-break, `none` = `return false` -/
-def slowStep (o : Oracle) (op : Nat) (s : St) (io : Io) : Out (Option (St × Io × Bool)) :=
+/-- one iteration of the `compress_stream` loop -/
+def slowStep (o : Oracle) (op : Nat) (s : St) (io : Io) : Out (St × Io × Ctl) :=
   let rbs := remainingInputBlockSize s
   if rbs ≠ 0 ∧ io.availIn ≠ 0 then
     let n := min rbs io.availIn
     if n > io.input.length then .panic else
     match copyInputToRingBuffer s (io.input.take n) io.input.length with
-    | .ok s => .ok (some (s, { io with input := io.input.drop n, availIn := io.availIn - n }, true))
+    | .ok s => .ok (s, { io with input := io.input.drop n, availIn := io.availIn - n }, .cont)
     | .panic => .panic
     | .fuel => .fuel
   else
   match injectFlushOrPushOutput s io with
   | .panic => .panic
   | .fuel => .fuel
-  | .ok (s, io, true) => .ok (some (s, io, true))
+  | .ok (s, io, true) => .ok (s, io, .cont)
   | .ok (s, io, false) =>
     if s.pending.length = 0 ∧ s.streamState = .processing ∧ (rbs = 0 ∨ op ≠ 0) then
       let isLast := decide (io.availIn = 0 ∧ op = 2)
@@ -643,11 +647,11 @@ def slowStep (o : Oracle) (op : Nat) (s : St) (io : Io) : Out (Option (St × Io 
       | .fuel => .fuel
       | .ok (s, res, req) =>
         let io := { io with reqs := io.reqs ++ [req] }
-        if !res then .ok none else
+        if !res then .ok (s, io, .fail) else
         let s := if forceFlush then { s with streamState := .flushRequested } else s
         let s := if isLast then { s with streamState := .finished } else s
-        .ok (some (s, io, true))
-    else .ok (some (s, io, false))
+        .ok (s, io, .cont)
+    else .ok (s, io, .brk)
 
 def slowLoop (o : Oracle) (op : Nat) : Nat → St → Io → Out (St × Io × Bool)
   | 0, _, _ => .fuel
@@ -655,9 +659,9 @@ def slowLoop (o : Oracle) (op : Nat) : Nat → St → Io → Out (St × Io × Bo
     match slowStep o op s io with
     | .panic => .panic
     | .fuel => .fuel
-    | .ok none => .ok (s, io, false)
-    | .ok (some (s', io', true)) => slowLoop o op fuel s' io'
-    | .ok (some (s', io', false)) => .ok (checkFlushComplete s', io', true)
+    | .ok (s', io', .fail) => .ok (s', io', false)
+    | .ok (s', io', .cont) => slowLoop o op fuel s' io'
+    | .ok (s', io', .brk) => .ok (checkFlushComplete s', io', true)
 
 /-- `compress_stream(op, available_in = input.length, next_in = input, available_out = cap)`;
 `op`: 0 PROCESS, 1 FLUSH, 2 FINISH, 3 EMIT_METADATA.  Result: state, cursors, return value. -/
